@@ -304,7 +304,7 @@ def run(rec, tier, seed):
     for kind, omk, rho, kT in itertools.product(K, lattice.OMEGA1, rhos, kTs):
         routes = ROUTES_FULL if (not quick or (omk in ('single', 'gauss6') and kT == 0.8)) else ROUTES_FAST
         cases.append({'gen': ['rank1', kind, omk, rho, kT], 'routes': [list(r) for r in routes], 'every': 1 if not quick else 5})
-    for dom in ('96x0.1', '256x0.05', '128xdk0.25', '96xdk0.3'):
+    for dom in ('96x0.1', '256x0.05', '128xdk0.25', '96xdk0.3', '118x0.1', '127xdk0.2'):
         for kind in K:
             cases.append({'gen': ['rank1', kind, 'gauss6', 0.5, 1.0, dom], 'routes': [list(r) for r in ROUTES_FAST], 'every': 5})
     # the same specifications reached through an edit history (kT assigned after construction, list keys, overwrites)
